@@ -83,6 +83,10 @@ def k1(rep, F):
     return r
 
 
+REVIEWED_KEEP = ["11", "13", "21", "23", "25", "26", "28", "32", "33", "34", "37", "50", "51", "52", "53", "54", "55", "56",
+                 "57", "58", "59", "60", "62", "71", "77", "90"]
+
+
 def k2(rep, F, tms):
     r = rep.rule("K2", "normalisation is injective on used tags: applying normalize_field_tag's keep-list "
                        "(read from its match arms) to the tag literals of each message type, no two distinct tags "
@@ -129,6 +133,12 @@ def k2(rep, F, tms):
         r["floor"] = 0
         return r
     r["keep_list"] = sorted(keep)
+    # the list itself is a reviewed table: the field numbers whose option letter the tokeniser keeps
+    if sorted(keep) != REVIEWED_KEEP:
+        rep.add(Finding("K2", b["path"], "keep-list:%s" % ",".join(sorted(set(keep) ^ set(REVIEWED_KEEP))),
+                        "the tokeniser's list of field numbers that keep their option letter differs from the "
+                        "reviewed list in %s: tags of those numbers are stored under another key than before"
+                        % sorted(set(keep) ^ set(REVIEWED_KEEP)), b["file"], b["line"]))
 
     def norm(t):
         m = re.match(r"^(\d+)(.*)$", t)
@@ -180,6 +190,17 @@ def k3(rep, F):
                     rep.add(Finding("K3", b["path"], "unconsume:%s" % n["m"],
                                     "%s removes entries from the consumed set: an occurrence can be handed out "
                                     "twice" % b["path"], b["file"], n.get("ln")))
+    # HashMap::insert(tag, set) on the consumed map replaces whatever was recorded for the tag
+    for b in F.bodies:
+        if "body" not in b or b.get("exp"):
+            continue
+        for n in walk(b["body"]):
+            if n.get("k") == "mcall" and n.get("m") == "insert" and \
+                    (n.get("f") or "").startswith("std::collections::HashMap") and \
+                    any(x.get("k") == "field" and x.get("name") == "consumed_indices" for x in walk(n["recv"])):
+                rep.add(Finding("K3", b["path"], "overwrite:insert",
+                                "%s stores a new set for a tag with HashMap::insert: the positions recorded before "
+                                "are forgotten and handed out again" % b["path"], b["file"], n.get("ln")))
     for name in ("mark_consumed", "get_next_available", "new"):
         b = F.body_by_path.get("parser::swift_parser::FieldConsumptionTracker::" + name)
         if b is None:
